@@ -141,7 +141,8 @@ C03 = codec_check("C03", "C03", "model_checking",
                  "request/response envelopes are checked by the wire-level checks, not here"])
 
 C10 = codec_check("C10", "C10", "model_checking",
-    rule="for every wrapper record: the pool of all reduced-alphabet deviation<=1 values, their copies, copies with maps rebuilt in every insertion order, nil<->empty swaps and JSON/ROR2 round-tripped copies; every ordered pair is compared with the generated Equals (must coincide with structural equality, which is an equivalence, hence symmetry and transitivity), and Equal pairs must have equal ComputeHash; hashes of a common sub-pool are compared across all shard processes; states = pool values, transitions = Equals calls; a class is the pair outcome",
+    rule="for every wrapper record: the pool of all reduced-alphabet deviation<=1 values, their copies, copies with maps rebuilt in every insertion order, nil<->empty swaps and JSON/ROR2 round-tripped copies; every ordered pair is compared with the generated Equals (must coincide with structural equality, which is an equivalence, hence symmetry and transitivity), and Equal pairs must have equal ComputeHash; the hashes of the whole pool of every map-bearing wrapper are computed in one process per Go map-iteration start (runtime overlay, VERIF_MAPROT = shard index; 16 starts quick, 64 thorough) and the digests of all processes must agree; states = pool values, transitions = Equals calls; a class is the pair outcome",
+    maprot=True,
     assumptions=["pairs containing a NaN are only checked for totality (NaN never equals itself)",
                  "transitivity follows from agreement with the reference equivalence on every pair of the pool; triples are not enumerated separately"])
 
@@ -150,7 +151,7 @@ C13 = codec_check("C13", "C13", "model_checking", universes=("defaults", "defaul
     rule="defaults universe: 63 (field type, default literal) pairs placed directly, in a nested required record, in an included record, two include levels deep and only-in-include; per record every subset of defaulted positions supplied (with a non-default value) or omitted, decoded from reference documents by the JSON, ROR2 and untyped-value readers and compared with the reference parse of the schema literal; constructor instances; every ordered pair of independently obtained instances (constructor / JSON decode / ROR2 decode) is checked for aliasing by mutating the first in place; states = (record, subset), transitions = decode calls; a class is (reader | maker pair, outcome)")
 
 
-C06 = codec_check("C06", "C06", "model_checking",
+_C06_codec = codec_check("C06", "C06", "model_checking",
     rule="per schema with nested records (plus three flat representatives) the rich value is encoded by the reference encoders with every enumerated subset of record-field positions deleted (or JSON-nulled), in several key orders and with unknown fields injected, and decoded by the JSON, ROR2, query-parameter (QueryParamsReader.ReadRecord around the parameter) and untyped readers; the reported MissingRequiredFieldsError.Fields must equal the independently computed sorted set of full paths of absent required fields, and the partially decoded value must hold every present field; malformed leaves must raise a DeserializationError scoped at the leaf; states = schemas, transitions = decode calls; a class is (reader, deletion count | outcome)",
     assumptions=["the path syntax (a.b[1].c, map keys and union aliases as segments, query parameters prefixed by the parameter name) is the library's own API, taken from upstream's tests",
                  "the lenient-client clause is checked at wire level (C02)"])
@@ -377,40 +378,50 @@ def C20(sc, tier, replay, t0):
     return D.finish("C20", tier, "model_checking", merged, t0, **kw)
 
 
-def C04(sc, tier, replay, t0):
-    """C04 = reader-level robustness (codec harness) + HTTP-level robustness of server and client (wire harness, part C04H)."""
-    if replay:
-        rp = json.load(open(replay)).get("replay") or {}
-        if rp.get("part") == "C04H":
-            gen = rp.get("gen", "v2")
-            uni = rp.get("universe", "resources-quick")
+def codec_plus_wire(prop, codec, part, rule_suffix, doc, deadline_q=600, deadline_t=3000):
+    """prop = its codec-harness check + a wire-harness part on resources-quick; the two reports are merged."""
+    def run(sc, tier, replay, t0):
+        if replay:
+            rp = json.load(open(replay)).get("replay") or {}
+            if rp.get("part") == part:
+                gen = rp.get("gen", "v2")
+                uni = rp.get("universe", "resources-quick")
+                binary = D.build_with_bindings(sc, gen, "wire", uni, resources=True)
+                return subprocess.run([binary, "-gen", gen, "-replay", replay], env=dict(D.goenv(), VERIF_UNIVERSE=uni)).returncode
+            return codec(sc, tier, replay, t0)
+        captured = {}
+        orig_finish = D.finish
+        def fake_finish(prop_, tier_, level, merged, t0_, **kw):
+            captured["merged"], captured["kw"] = merged, kw
+            return 0
+        D.finish = fake_finish
+        try:
+            codec(sc, tier, None, t0)
+        finally:
+            D.finish = orig_finish
+        merged, kw = captured["merged"], captured["kw"]
+        uni = "resources-quick"  # the R-universe's resources are enough here
+        reports = []
+        for gen in ("v2", "root"):
             binary = D.build_with_bindings(sc, gen, "wire", uni, resources=True)
-            return subprocess.run([binary, "-gen", gen, "-replay", replay], env=dict(D.goenv(), VERIF_UNIVERSE=uni)).returncode
-        return _C04_codec(sc, tier, replay, t0)
-    captured = {}
-    orig_finish = D.finish
-    def fake_finish(prop, tier_, level, merged, t0_, **kw):
-        captured["merged"], captured["kw"] = merged, kw
-        return 0
-    D.finish = fake_finish
-    try:
-        _C04_codec(sc, tier, None, t0)
-    finally:
-        D.finish = orig_finish
-    merged, kw = captured["merged"], captured["kw"]
-    uni = "resources-quick"  # the R-universe's 14 resources are enough here; thorough lengthens the strings
-    reports = []
-    for gen in ("v2", "root"):
-        binary = D.build_with_bindings(sc, gen, "wire", uni, resources=True)
-        reports += D.run_shards(binary, gen, tier, max(1, D.NCPU // 2), os.path.join(sc.dir, "out-http"), extra_args=["-part", "C04H"],
-                                env={"VERIF_UNIVERSE": uni}, deadline=(3000 if tier == "thorough" else 600), tag="-http")
-    m2 = D.merge_reports(reports)
-    for k, v in m2["sub"].items():
-        merged["sub"][k] = v
-    merged["failures"] += m2["failures"]
-    merged["failures"].sort(key=lambda f: f["sig"])
-    merged["fail_count"] = merged.get("fail_count", 0) + m2.get("fail_count", 0)
-    merged["exhaustive"] = merged["exhaustive"] and m2["exhaustive"]
-    merged["capped"] += m2["capped"]
-    kw["rule"] = kw["rule"] + "; (HTTP level) the valid request of every method of every resource with every short ROR2 string as extra / whole query and as key segment, every truncation / single-byte edit of query and JSON body, header variants, replayed raw against the real server: never a panic, 5xx or stack trace, and 4xx without resource invocation whenever the reference parser rejects the query / body; the valid response with every truncation / single-byte edit of its body and id / location / error-header / status / content-type variants fed to the generated client: the call returns, never panics"
-    return D.finish("C04", tier, "model_checking", merged, t0, **kw)
+            reports += D.run_shards(binary, gen, tier, max(1, D.NCPU // 2), os.path.join(sc.dir, "out-" + part), extra_args=["-part", part],
+                                    env={"VERIF_UNIVERSE": uni}, deadline=(deadline_t if tier == "thorough" else deadline_q), tag="-" + part)
+        m2 = D.merge_reports(reports)
+        for k, v in m2["sub"].items():
+            merged["sub"][k] = v
+        merged["failures"] += m2["failures"]
+        merged["failures"].sort(key=lambda f: f["sig"])
+        merged["fail_count"] = merged.get("fail_count", 0) + m2.get("fail_count", 0)
+        merged["exhaustive"] = merged["exhaustive"] and m2["exhaustive"]
+        merged["capped"] += m2["capped"]
+        kw["rule"] = kw["rule"] + rule_suffix
+        return D.finish(prop, tier, "model_checking", merged, t0, **kw)
+    run.__doc__ = doc
+    return run
+
+
+C04 = codec_plus_wire("C04", _C04_codec, "C04H", "; (HTTP level) the valid request of every method of every resource with every short ROR2 string as extra / whole query and as key segment, every truncation / single-byte edit of query and JSON body, header variants, replayed raw against the real server: never a panic, 5xx or stack trace, and 4xx without resource invocation whenever the reference parser rejects the query / body; the valid response with every truncation / single-byte edit of its body and id / location / error-header / status / content-type variants fed to the generated client: the call returns, never panics",
+                      "C04 = reader-level robustness (codec harness) + HTTP-level robustness of server and client (wire harness, part C04H).")
+
+C06 = codec_plus_wire("C06", _C06_codec, "C06W", "; (wire level) the complete response of every method answering with an entity, with every required path deleted / nulled and every pair deleted, fed to the generated client: a lenient client returns the value with every other field intact and no error, a strict client the same value and one MissingRequiredFieldsError naming exactly those paths",
+                      "C06 = required-field accounting of the four readers (codec harness) + lenient / strict client on incomplete responses (wire harness, part C06W).")
